@@ -80,9 +80,10 @@ def tile_fields(r, rname, width, allow_reset=True):
         shr = r.choice([0, 0, 0, 0, 2, 8]) if not hidden else 0
         reset = r.getrandbits(w) if (allow_reset and shr == 0 and r.random() < 0.3) else 0
         enums = []
-        if not hidden and shr == 0 and r.random() < 0.4:
+        if not hidden and r.random() < 0.4:
+            # enum constants are values as get_value() reads them (for a SHIFT_RIGHT field: multiples of 2^shr)
             vals = r.sample(range(min(1 << w, 64)), k=min(1 << w, r.randrange(1, 4)))
-            enums = [(f"{rname}_{name}_E{v}", v) for v in vals]
+            enums = [(f"{rname}_{name}_E{v << shr}", v << shr) for v in vals]
         fields.append(mk_field(name, off, w, reset=reset, shr=shr, hidden=hidden, enums=enums))
         off += w
     return fields
@@ -178,7 +179,7 @@ class Real:
         return {"bits": bits, "n": len(self.regs), "fv": fv, "en": en, "gv": gv}
 
     def present(self, v, r, width_bits=None):
-        k = r.randrange(5)
+        k = r.randrange(9)
         if k == 0:
             return v
         if k == 1:
@@ -187,6 +188,12 @@ class Real:
             return str(v)
         if k == 3:
             return bin(v)
+        if k == 4:                       # every spelling of the documented number grammar denotes the same value: upper-case prefix / digits, octal,
+            return r.choice([f"0X{v:X}", f"0x{v:X}", f"0B{v:b}", f"0o{v:o}", f"0O{v:o}"])
+        if k == 5:                       # suffixes and digit separators
+            return r.choice([f"{v}u", f"{hex(v)}ul", f"{v:_}", f"0x{v:_x}"])
+        if k == 6:
+            return f" {hex(v)} " if r.random() < 0.5 else str(v)
         return v.to_bytes(max(1, (v.bit_length() + 7) // 8), "big")
 
     def apply(self, a, r):
